@@ -34,8 +34,9 @@ try:
 finally:
     subprocess.run(['git', '-C', '/repo', 'checkout', 'HEAD', '--', '.'])
     # evidence files were rewritten by runs on the patched tree: regenerate on the clean tree
-    for pid in ['C%02d' % i for i in range(1, 21)]:
-        subprocess.run([os.path.join(ROOT, 'check'), pid, '--tier', 'quick'], cwd=ROOT, stdout=subprocess.DEVNULL)
+    if not os.environ.get('KEEP_NO_REGEN'):
+        for pid in ['C%02d' % i for i in range(1, 21)]:
+            subprocess.run([os.path.join(ROOT, 'check'), pid, '--tier', 'quick'], cwd=ROOT, stdout=subprocess.DEVNULL)
 meta = {'seed': sid, 'breaks_property': prop, 'needs_to_manifest': needs,
         'author': 'independent sub-agent that saw only the property text and a scratch worktree of /repo',
         'confirmed_by_me': confirm,
